@@ -121,7 +121,7 @@ def run : P String := do
     | .panic s => .panic s
   match g0 with
   | .ok g0 =>
-    match checkModuleTree g0 ms with
+    match checkModuleTree g0 (packageRoot ms) with
     | .ok out =>
       let probes := out.probes.map fun (id, r) => s!"{id}={showRes (fun t => ":" ++ toString t) r}"
       let exports := (exportTable out.g).map fun (l, t) => s!"{showSegs l}={t}"
